@@ -303,6 +303,16 @@ def main():
         except Exception as e:  # noqa
             ck.count('sanitizer_build_failed')
             ck.cov['sanitizer_note'] = str(e)[-300:]
+    # units spelled like a non-terminal of the auto-generated grammar (Colloc0, Colloc0s, Phoneme, Phonemes, Sentence): the
+    # rule "Phoneme --> Colloc0" makes the unit a non-terminal and the grammar cyclic (known finding)
+    for unit in ('Colloc0', 'Sentence', 'Phonemes'):
+        tu = [['a', unit, 'c', 'a', unit], ['c', 'a', unit]]
+        res, runs, left, args = run_case(ck, bindir_real, tu, None, 6, 2, 5, 1, 1, 0, None, 'Colloc0', 'unit-named-like-nonterminal')
+        ck.case('nonterminal-unit:' + unit, True, sample={'text': gens.lines(tu), 'result': res[0] if res[0] == 'raise' else res[1]})
+        ck.count('family:unit-named-like-nonterminal')
+        why = ('segment raised ' + res[1]) if res[0] != 'ok' else gens.aligned(tu, res[1])
+        if why and not ck.match_known('ag.segment', {'unit_named_like_grammar_nonterminal'}):
+            ck.violation({'site': 'ag.segment', 'input': {'text': gens.lines(tu), 'args': args}}, 'property fails on the implementation: ' + why)
     n, problems = ck.coq_recheck()
     finish_proof_failures(ck, failures + problems)
     return ck.finish(
